@@ -368,5 +368,12 @@ def enumerate_oddities() -> Dict:
                 e5["data"]["extra_key"] = []
                 run("%s/%s extra_data_key" % (entry["type"], cname), [e5], e5["data"])
             run("%s/%s duplicated_entry" % (entry["type"], cname), [entry, entry])
+    # two entries of different type sharing one name; a machine entry followed by a compound entry
+    fileio.write_contracts_to_file([base_contracts()[0][1]], ["same"], "m.json", machine_representation=True)
+    fileio.write_contracts_to_file([base_contracts()[2][1]], ["same"], "s.json", machine_representation=False)
+    fileio.write_contracts_to_file([base_contracts()[4][1]], ["same"], "c.json", machine_representation=False)
+    em, es, ec = (json.loads(fs.files[f])[0] for f in ("m.json", "s.json", "c.json"))
+    run("mixed types sharing a name", [em, es, ec])
+    run("compound then machine", [ec, em])
     run("empty file list", [])
     return {"cases": n, "outcomes": outcomes, "failures": failures}
